@@ -765,6 +765,96 @@ pub enum WVal {
     Fold(String),
     Commented(i64, String),
     Flow(Vec<i64>),
+    /// one document holding every serializer construct: comments, flow collections, block scalars,
+    /// Rc / Arc / weak anchors, enum variants, empty containers, options, multi-line and long strings,
+    /// special floats, a space-after field, nested structs, bytes-like sequences
+    Rich(RichSeed),
+}
+
+#[derive(Clone, Debug, Serialize, Deserialize)]
+pub struct RichSeed {
+    pub words: Vec<String>,
+    pub n: i64,
+    pub variant: u8,
+}
+
+#[derive(Serialize)]
+struct RichInner {
+    k: String,
+    v: f64,
+    opt: Option<bool>,
+}
+
+#[derive(Serialize)]
+struct Rich {
+    c: serde_saphyr::Commented<i64>,
+    f: serde_saphyr::FlowSeq<Vec<i64>>,
+    fm: serde_saphyr::FlowMap<std::collections::BTreeMap<String, i64>>,
+    sa: serde_saphyr::SpaceAfter<i64>,
+    lit: serde_saphyr::LitString,
+    fold: serde_saphyr::FoldString,
+    multi: String,
+    long: String,
+    shared: Vec<serde_saphyr::RcAnchor<String>>,
+    arc: (serde_saphyr::ArcAnchor<RichInner>, serde_saphyr::ArcAnchor<RichInner>),
+    weak: serde_saphyr::RcWeakAnchor<String>,
+    dangling: serde_saphyr::RcWeakAnchor<String>,
+    e: Vec<En>,
+    empty_v: Vec<i64>,
+    empty_m: std::collections::BTreeMap<String, i64>,
+    none: Option<i64>,
+    unit: (),
+    floats: Vec<f64>,
+    tricky: Vec<String>,
+    inner: RichInner,
+    nested: Vec<std::collections::BTreeMap<String, Vec<RichInner>>>,
+    tuple: (i64, String, bool),
+    ch: char,
+}
+
+fn build_rich(seed: &RichSeed) -> Rich {
+    use serde_saphyr::*;
+    let w = |i: usize| seed.words.get(i % seed.words.len().max(1)).cloned().unwrap_or_else(|| "w".into());
+    let s1 = std::rc::Rc::new(w(0));
+    let s2 = std::rc::Rc::new(w(1));
+    let a1 = std::sync::Arc::new(RichInner { k: w(2), v: 1.5, opt: Some(true) });
+    let gone = std::rc::Rc::new("gone".to_string());
+    let dangling = RcWeakAnchor::from(&gone);
+    drop(gone);
+    let mut fm = std::collections::BTreeMap::new();
+    fm.insert(w(3), seed.n);
+    fm.insert("z".into(), 2);
+    let mut nm = std::collections::BTreeMap::new();
+    nm.insert(w(4), vec![RichInner { k: w(5), v: -0.0, opt: None }, RichInner { k: "q".into(), v: 2.0, opt: Some(false) }]);
+    Rich {
+        c: Commented(seed.n, w(6)),
+        f: FlowSeq(vec![1, seed.n, 3]),
+        fm: FlowMap(fm),
+        sa: SpaceAfter(seed.n),
+        lit: LitString(format!("{}\n{}\n", w(7), w(8))),
+        fold: FoldString((0..24).map(|i| w(i)).collect::<Vec<_>>().join(" ")),
+        multi: format!("{}\n  {}\n\n{}", w(9), w(10), w(11)),
+        long: (0..40).map(|i| w(i + 3)).collect::<Vec<_>>().join(" "),
+        shared: vec![RcAnchor(s1.clone()), RcAnchor(s2.clone()), RcAnchor(s1.clone()), RcAnchor(s2)],
+        arc: (ArcAnchor(a1.clone()), ArcAnchor(a1)),
+        weak: RcWeakAnchor::from(&s1),
+        dangling,
+        e: match seed.variant % 3 {
+            0 => vec![En::U, En::N(1)],
+            1 => vec![En::T(2, w(12)), En::S { a: 3, b: w(13) }],
+            _ => vec![],
+        },
+        empty_v: vec![],
+        empty_m: Default::default(),
+        none: None,
+        unit: (),
+        floats: vec![f64::INFINITY, f64::NEG_INFINITY, f64::NAN, 0.1, 1e300, -0.0],
+        tricky: vec!["true".into(), "123".into(), "".into(), " lead".into(), "a: b".into(), "# no".into(), "- x".into(), "null".into(), "~".into(), w(14)],
+        inner: RichInner { k: w(15), v: 3.25, opt: None },
+        nested: vec![nm],
+        tuple: (seed.n, w(16), true),
+        ch: 'é',
+    }
 }
 
 #[derive(Clone, Copy, Debug, Serialize, Deserialize, Default)]
@@ -847,6 +937,7 @@ fn ser_to<W: std::io::Write>(val: &WVal, w: &mut W, o: SerOpts) -> Result<(), se
         WVal::Fold(s) => to_io_writer_with_options(w, &FoldString(s.clone()), so),
         WVal::Commented(n, c) => to_io_writer_with_options(w, &Commented(*n, c.clone()), so),
         WVal::Flow(v) => to_io_writer_with_options(w, &FlowSeq(v.clone()), so),
+        WVal::Rich(seed) => to_io_writer_with_options(w, &build_rich(seed), so),
     }
 }
 
@@ -873,6 +964,7 @@ fn ser_ref(val: &WVal, o: SerOpts) -> Result<String, serde_saphyr::ser::Error> {
         WVal::Fold(s) => to_string_with_options(&FoldString(s.clone()), so),
         WVal::Commented(n, c) => to_string_with_options(&Commented(*n, c.clone()), so),
         WVal::Flow(v) => to_string_with_options(&FlowSeq(v.clone()), so),
+        WVal::Rich(seed) => to_string_with_options(&build_rich(seed), so),
     }
 }
 
@@ -1119,6 +1211,11 @@ fn gen_wval(rng: &mut Rng) -> WVal {
         }
         6 => WVal::Commented(rng.below(100) as i64, wl::gen_string(rng)),
         7 => WVal::Flow((0..rng.below(6)).map(|_| rng.below(100) as i64).collect()),
+        8 | 9 => WVal::Rich(RichSeed {
+            words: (0..rng.range(3, 8)).map(|_| wl::gen_string(rng)).collect(),
+            n: rng.below(1000) as i64 - 500,
+            variant: rng.below(3) as u8,
+        }),
         _ => WVal::Json(to_json(&wl::gen_json(rng, 3))),
     }
 }
